@@ -532,8 +532,13 @@ Section Config.
     - (* not advertised: forced *)
       destruct cfg_has_tls as (f & Ef). rewrite Ef.
       destruct (find_space_in _ _ _ Ef) as (Hin & Hsp).
-      destruct (gated_cases f (cfg_gated f Hin)) as [(Hk & Hn & _)|(_ & _ & Hns)]; [|contradiction].
-      rewrite Hn. apply init_loop_clear_forced; auto.
+      destruct (gated_cases f (cfg_gated f Hin)) as [(Hk & Hn & Hp & Hnec & _)|(_ & _ & Hns)]; [|contradiction].
+      assert (eligible f (m_bits m) = true) as Hel.
+      { destruct Hi as (_ & _ & Hb). rewrite Hb. unfold eligible, has, disj.
+        rewrite Hnec, Hp, tbl_starttls_nec, tbl_starttls_proh, N.land_0_r. cbn [N.eqb andb].
+        pose proof (b0_secure b0 Hb0) as Hs. unfold has in Hs. apply N.eqb_neq in Hs.
+        apply N.eqb_eq. pose proof (land_sub _ _ _ (b0_mask b0 Hb0) tbl_secure_sub) as Hz. exact Hz. }
+      rewrite Hn, Hel. apply init_loop_clear_forced; auto.
   Qed.
 
   Lemma negotiate_features_clear m m' r :
